@@ -13,3 +13,9 @@ for _n, _tier in ((2, "quick"), (3, "thorough")):
                                                    "C10": (_tier if _nm in ("create", "delete") else "thorough")}))
     for _op, _nm in ((0, "create"), (1, "delete"), (3, "process")):
         GROUPS.append(_t("tmr%d_isr_%s" % (_n, _nm), "COTmr" + _nm.capitalize(), _op, _n, {"C08": ("thorough" if _nm == "process" else _tier)}, isr=True))
+
+# C08 quick: COTmrProcess with exactly ONE preemption by the tick service at any lock/unlock boundary (the full
+# any-subset-of-8-preemptions group tmr2_isr_process needs > 15 min and is in the thorough tier)
+GROUPS.append(_t("tmr2_isr1_process", "COTmrProcess", 3, 2, {"C08": "quick"}, isr=True,
+                 bounded="timer pool of 2 actions/events (arbitrary well-formed pre-state); exactly one interrupt service at any one lock/unlock boundary"))
+GROUPS[-1]["defs"] = GROUPS[-1]["defs"] + ["VW_ISR_ONCE"]
